@@ -2,6 +2,7 @@
    Spec = Model/Launch.v: spec_launch; Impl = impl_launch instantiated with Gen/LaunchGen.v (impl). *)
 From Coq Require Import List String ZArith NArith Bool Arith Permutation.
 From SV Require Import Common.Prelude Model.Pipeline Model.Launch Proofs.Launch Gen.LaunchGen.
+From SV Require Import Model.Stateful Proofs.Stateful Gen.OrchestratorGen.
 Import ListNotations.
 Open Scope string_scope.
 Open Scope list_scope.
@@ -17,6 +18,30 @@ Proof. reflexivity. Qed.
 Lemma gen_exit : exit_runtime_error = 4%Z. Proof. reflexivity. Qed.
 Lemma gen_end_summary : end_summary_keys = ["planned_runs"; "completed_runs"]. Proof. reflexivity. Qed.
 Lemma gen_impl : impl = mkVariant enrich_on_copy true spec_id_paths_agree. Proof. reflexivity. Qed.
+
+(* ---- components that keep state on their instance ------------------------------------------------------------
+   Every execute() builds its own node instances (read from orchestrator.py: _instantiate_nodes is called once per
+   execute and keeps nothing; hard obligation).  Hence, for nodes that are arbitrary Mealy machines, the runs of one
+   Pipeline object / of one launch are independent standalone runs: run i depends on input i only. *)
+Lemma gen_fresh_nodes_per_run : fresh_nodes_per_run = true. Proof. reflexivity. Qed.
+
+Theorem C09_stateful_runs_are_standalone : forall (S D : Type) (ns : list (mnode S D)) ds,
+  m_runs fresh_nodes_per_run ns ds = map (m_standalone ns) ds.
+Proof. intros S D ns ds. rewrite gen_fresh_nodes_per_run. apply fresh_runs_are_standalone. Qed.
+
+Theorem C09_stateful_no_leak : forall (S D : Type) (ns : list (mnode S D)) ds ds' i j,
+  nth_error ds i = nth_error ds' j ->
+  nth_error (m_runs fresh_nodes_per_run ns ds) i = nth_error (m_runs fresh_nodes_per_run ns ds') j.
+Proof. intros S D ns ds ds' i j. rewrite gen_fresh_nodes_per_run. apply fresh_runs_no_leak. Qed.
+
+(* were instances shared between runs, a stateful node would leak (witness: a running total) -- and stateless nodes
+   would hide it, which is why the component library alone cannot show the difference *)
+Theorem C09_stateful_refuted_when : fresh_nodes_per_run = false ->
+  exists (ns : list (mnode Z Z)) ds, m_runs fresh_nodes_per_run ns ds <> map (m_standalone ns) ds.
+Proof. intros E. rewrite E. exact reused_instances_leak. Qed.
+Theorem C09_stateless_hide_reuse : forall (S D : Type) (ns : list (mnode S D)),
+  Forall (stateless S D) ns -> forall ds, m_runs false ns ds = map (m_standalone ns) ds.
+Proof. exact stateless_reuse_is_harmless. Qed.
 
 Section Launches.
 Variable H : string -> string.
@@ -209,6 +234,10 @@ Proof. reflexivity. Qed.
 Definition C09_impl_is_spec := fun H => C09_impl_is_spec_full H gen_enrich_on_copy.
 Definition C09_no_leak := fun H => C09_no_leak_full H gen_enrich_on_copy.
 Definition C09_spec_id_agree := fun HJ => C09_spec_id_agree_full HJ gen_spec_id_paths_agree.
+Print Assumptions C09_stateful_runs_are_standalone.
+Print Assumptions C09_stateful_no_leak.
+Print Assumptions C09_stateful_refuted_when.
+Print Assumptions C09_stateless_hide_reuse.
 Print Assumptions C09_impl_is_spec.
 Print Assumptions C09_no_leak.
 Print Assumptions C09_spec_id_agree.
